@@ -220,7 +220,7 @@ def check_names(ctx, m):
                 ctx.tie_break("Gen.checksum vs EightDotThree.checksum", dict(name=nm.hex(), model=r, impl=c))
         ctx.nontrivial.add(nm)
     # padding and the 0x05 / 0xE5 lead byte through set_str_name (cp850: 0xE5 is 'Õ')
-    for nm in ["A", "ABCDEFGH.XYZ", "A.B", "README", "ÕX.TXT", "Õ", "AB CD.E F", "X.", "12345678.123"]:
+    for nm in ["A", "ABCDEFGH.XYZ", "A.B", "README", "ÕX.TXT", "Õ", "AB CD.E F", "X.", "12345678.123", "AÕ.TXT", "AB.ÕXT", "ÕÕ.ÕÕÕ", "XÕÕÕÕÕÕÕ.Õ"]:
         ctx.evaluations += 1
         e = EightDotThree(encoding="cp850")
         try:
@@ -228,6 +228,13 @@ def check_names(ctx, m):
         except Exception:
             continue
         stored = bytes(e.name)
+        # the specification's stored form: both fields blank-padded; ONLY a lead byte 0xE5 becomes 0x05 (C20-m8 translated the first 0xE5 anywhere)
+        b0, _, x0 = nm.partition(".")
+        want11 = bytearray(b0.strip().encode("cp850").ljust(8) + x0.strip().encode("cp850").ljust(3))
+        if want11[0] == 0xE5:
+            want11[0] = 0x05
+        if len(want11) == 11 and stored != bytes(want11):
+            ctx.violation(f"short name {nm!r} stored as {stored!r}, the specification stores {bytes(want11)!r}", "sfn-store-bytes", dict(kind="sfn", name=nm))
         if len(stored) != 11 or stored[0] == 0xE5:
             ctx.violation(f"short name {nm!r} stored as {stored!r}", "sfn-store", dict(kind="sfn", name=nm))
         s1 = str(e)
